@@ -429,6 +429,10 @@ func genWorld(t *rapid.T, maxFiles int, recCombo, http, shadows bool) *World {
 		if f.YAML && rapid.IntRange(0, 2).Draw(t, "crlf") == 0 {
 			f.CRLF = true
 		}
+		if !f.YAML && rapid.IntRange(0, 9).Draw(t, "otherext") == 0 {
+			// JSON content under an extension that is neither .json nor a YAML one: still JSON
+			ext = ".schema"
+		}
 		f.Base = f.Tag + "f" + ext
 		if feat.NoExt && rapid.IntRange(0, 2).Draw(t, "dottedstem") == 0 {
 			// a dot in the stem (address-1.0.json, types.v2.yaml): "t0f.v1" is not a name with extension ".v1"
@@ -1513,7 +1517,13 @@ func (g *genCtx) genLeaf() any {
 				o = append(o, KV{"minimum", 0.5})
 			}
 			if g.pct("nmax", 35) {
-				o = append(o, KV{"maximum", 99.5})
+				if !g.f.YAML && g.pct("expform", 40) {
+					// exponent form without a fraction, as encoding/json and JSON.stringify print large and small
+					// values: a number in JSON (a string for some YAML readers)
+					o = append(o, KV{"maximum", RawJSON(rapid.SampledFrom([]string{"1e3", "1e+21", "2.5e2", "1E3"}).Draw(g.t, "expnum"))})
+				} else {
+					o = append(o, KV{"maximum", 99.5})
+				}
 			}
 			if g.pct("nmul", 15) {
 				o = append(o, KV{"multipleOf", 0.5})
